@@ -85,4 +85,5 @@ F74 a positional argument written after *args
 F75 annotate applied over a modifier also updates the bound wrappers
 F76 an attribute the function assigns is unknown also where it is passed on
 F77 annotations that functools.wraps handed over to a wrapper
+F78 a signature forger set on a class is for the class
 LIST
